@@ -27,13 +27,14 @@ PROPERTY = "C03"
 TECHNIQUE = "runtime monitoring; decomposition oracle (ensemble member located through the returned axis metadata vs scalar run) + float64 weighted-mean model"
 RULE = ("pipelines ctf (Waves.apply_ctf by kwargs / CTF object, Aberrations, Aperture, TemporalEnvelope, SpatialEnvelope .apply), "
         "plane (PlaneWave tilt x / y / x and y / Nx2 array / BeamTilt object -> multislice, optionally followed by apply_ctf with "
-        "distributions), probe (Probe tilt, aberrations, semiangle, scan positions -> build or multislice with detector none/"
+        "distributions), probe (Probe tilt, aberrations, semiangle, scan positions as CustomScan / Line- and GridScan with gpts, "
+        "without gpts and sampling (matched to the probe) or edited after construction -> build, multislice or scan with detector none/"
         "annular/flexible/pixelated/segmented); 1-3 simultaneous distributions, lengths 2-4 all distinct or all equal, given as "
         "from_values (with weights) / list / ndarray / uniform / gaussian, ensemble_mean per distribution, negative and zero "
         "values, every polar symbol and alias, eager or lazy with max_batch auto/1/2/3/5 (5-7 members on one axis give unequal batches), every ensemble object also partitioned directly with unequal explicit chunkings, float32 or float64; non-trivial = at least "
         "two members compared with scalar runs that differ from each other; distinct = distinct case signature")
 CLAUSES = ["member:values", "axis-found", "axis-values", "axis-length", "mean:values", "mean-axis-removed",
-           "waves-keep-mean-axis", "ensemble-run-completes", "position-axis", "partition"]
+           "waves-keep-mean-axis", "ensemble-run-completes", "position-axis", "partition", "joint-compute:values"]
 QUICK = dict(n=30, time=34)
 THOROUGH = dict(n=10400, time=480, shards=16)
 
@@ -144,7 +145,8 @@ def _fixed_for(rng, names):
 def gen(rng, tier):
     pipeline = str(rng.choice(["ctf", "ctf", "plane", "probe", "probe", "probe"]))
     cell = G.rand_cell_case(rng, max_atoms=4, max_xy=7.0, max_z=5.0, min_xy=4.0, min_z=2.0)
-    case = {"pipeline": pipeline, "cell": cell, "gpts": G.rand_gpts(rng, 12, 26), "slice_thickness": float(rng.uniform(0.8, 2.0)),
+    joint = bool(rng.random() < 0.35)
+    case = {"joint": joint, "pipeline": pipeline, "cell": cell, "gpts": G.rand_gpts(rng, 12, 26), "slice_thickness": float(rng.uniform(0.8, 2.0)),
             "energy": float(rng.choice([60e3, 100e3, 200e3, 300e3])), "lazy": bool(rng.random() < 0.5),
             "max_batch": ["auto", "auto", 1, 2, 2, 3, 5][int(rng.integers(0, 7))],
             "precision": str(rng.choice(["float32", "float32", "float64"])), "wave_seed": int(rng.integers(0, 2 ** 31 - 1)),
@@ -234,8 +236,12 @@ def gen(rng, tier):
             case["fixed"]["semiangle_cutoff"] = float(rng.uniform(12, 28))
         if rng.random() < 0.5 and not any(symbol_of(n) == "C10" for n in names):
             case["fixed"]["C10"] = float(rng.uniform(-80, 80))
-        case["scan_kind"] = str(rng.choice(["custom", "custom", "line", "grid"])) if "positions" in names else \
-            str(rng.choice(["none", "point"]))
+        case["scan_kind"] = str(rng.choice(["custom", "custom", "line", "grid", "line_auto", "grid_auto", "line_edit",
+                                            "grid_edit"])) if "positions" in names else str(rng.choice(["none", "point"]))
+        # scans without gpts/sampling are matched to the probe (Nyquist); `steps` = scan extent in units of that sampling,
+        # never an integer, so the extent is not a multiple of the sampling
+        case["scan_steps"] = [float(rng.uniform(2.3, 5.7)), float(rng.uniform(1.3, 2.9))]
+        case["scan_edit"] = str(rng.choice(["sampling", "end", "start", "gpts"]))
         if method == "scan" and case["scan_kind"] == "none":
             case["scan_kind"] = "point"          # Probe.scan without a scan rasters the whole cell
         case["scan_endpoint"] = bool(rng.random() < 0.5)
@@ -314,6 +320,23 @@ def fixed_cases(tier):
                     params=[P("positions", [[0.1, 0.1], [0.9, 0.8]] + five[:4])]))
     out.append(dict(ctf, target="Aberrations", measure="waves", lazy=True, max_batch=3, fixed={},
                     params=[P("coma", [3e3, -1e3, 0.0, 5e3, -4e3, 2e3, 1e3], weights=[1.0, 0.5, 0.8, 1.2, 0.3, 0.9, 0.6])]))
+    # scans whose sampling is matched to the probe / edited after construction; extent not a multiple of the sampling
+    seg = [[0.1, 0.15], [0.73, 0.42]]
+    out.append(dict(probe, tilt_form="none", scan_kind="line_auto", scan_steps=[4.4, 2.3], scan_endpoint=True,
+                    params=[P("positions", seg)]))
+    out.append(dict(probe, tilt_form="none", scan_kind="line_edit", scan_edit="sampling", scan_steps=[3.6, 2.3], lazy=True,
+                    max_batch=3, scan_endpoint=True, method="multislice", detector="pixelated", params=[P("positions", seg)]))
+    out.append(dict(probe, tilt_form="none", scan_kind="grid_auto", scan_steps=[2.6, 1.7], scan_endpoint=False, lazy=True,
+                    max_batch=2, params=[P("positions", seg), P("defocus", [30.0, -40.0])]))
+    for kind, how, ep in (("grid_edit", "end", False), ("grid_edit", "sampling", True), ("grid_edit", "start", False),
+                          ("line_edit", "end", False), ("line_edit", "start", True), ("grid_edit", "gpts", False)):
+        out.append(dict(probe, tilt_form="none", scan_kind=kind, scan_edit=how, scan_steps=[3.4, 2.6], scan_endpoint=ep,
+                        lazy=(how in ("end", "gpts")), max_batch=2, params=[P("positions", seg)]))
+    # two lazy ensembles of the same kind and shapes in one dask graph
+    out.append(dict(probe, joint=True, lazy=True, tilt_form="none", scan_kind="custom", method="multislice", detector="annular",
+                    params=[P("positions", [[0.2, 0.3], [0.6, 0.5], [0.8, 0.1]]), P("Cs", [1e5, -2e5])]))
+    out.append(dict(ctf, joint=True, target="CTF", measure="intensity", fixed={"semiangle_cutoff": 25.0},
+                    params=[P("defocus", [60.0, -30.0, 10.0]), P("focal_spread", [10.0, 40.0])]))
     plane = dict(base, pipeline="plane", tilt_form="xy", fixed_tilt=[0.0, 0.0], ctf_names=["defocus"], detector="none",
                  measure="intensity", fixed={})
     out.append(dict(plane, params=[P("tilt_x", [-12.0, 7.0, 0.0]), P("tilt_y", [4.0, -9.0]), P("defocus", [100.0, -50.0], mean=True)]))
@@ -438,6 +461,63 @@ def _scan_arg(case, positions, extent, scalar):
     raise KeyError(kind)
 
 
+def _wavelength(energy):
+    h, c, me, e = 6.626070040e-34, 299792458.0, 9.10938356e-31, 1.6021766208e-19
+    return h * c / np.sqrt(energy * e * (energy * e + 2 * me * c * c)) * 1e10
+
+
+def matched_scan(case, spec, extent, semiangle_max):
+    """Line / grid scans whose number of positions is left to abTEM: constructed without gpts and sampling (matched to the
+    probe when used) or edited after construction.  Returns (scan, info); no position model - only what the inputs promise:
+    first position = start, endpoint -> last position = end, otherwise last + step = end, uniform steps."""
+    import abtem
+    kind = case["scan_kind"]
+    ep = bool(case["scan_endpoint"])
+    step = 0.99 * _wavelength(case["energy"]) / (4 * semiangle_max * 1e-3)          # only used to size the input
+    sx, sy = case["scan_steps"]
+    a = np.array(spec.values[0]) * extent
+    d = np.array(spec.values[1]) * extent - a
+    if kind.startswith("line"):
+        u = d / np.linalg.norm(d)
+        b = a + u * sx * step
+        if kind == "line_auto":
+            scan = abtem.LineScan(start=tuple(a), end=tuple(b), endpoint=ep)
+        else:
+            how = case["scan_edit"]
+            if how == "sampling":
+                scan = abtem.LineScan(start=tuple(a), end=tuple(b), gpts=2, endpoint=ep)
+                scan.sampling = step
+            elif how == "end":
+                scan = abtem.LineScan(start=tuple(a), end=tuple(a + 0.37 * (b - a)), gpts=3, endpoint=ep)
+                scan.end = tuple(b)
+            elif how == "start":
+                scan = abtem.LineScan(start=tuple(a + 0.41 * (b - a)), end=tuple(b), sampling=step, endpoint=ep)
+                scan.start = tuple(a)
+            else:
+                scan = abtem.LineScan(start=tuple(a), end=tuple(b), sampling=step, endpoint=ep)
+                scan.gpts = int(np.ceil(sx)) + 1
+        return scan, {"base": "line", "start": a, "end": b, "endpoint": (ep,), "ndim": 1}
+    lo = a
+    hi = a + np.array([sx * 0.6, sy]) * step
+    if kind == "grid_auto":
+        scan = abtem.GridScan(start=tuple(lo), end=tuple(hi), endpoint=ep)
+    else:
+        how = case["scan_edit"]
+        if how == "sampling":
+            scan = abtem.GridScan(start=tuple(lo), end=tuple(hi), gpts=2, endpoint=ep)
+            scan.sampling = (step, 0.8 * step)
+        elif how == "end":
+            scan = abtem.GridScan(start=tuple(lo), end=tuple(lo + 0.45 * (hi - lo)), sampling=step, endpoint=ep)
+            scan.end = tuple(hi)
+        elif how == "start":
+            scan = abtem.GridScan(start=tuple(lo + 0.3 * (hi - lo)), end=tuple(hi), sampling=step, endpoint=ep)
+            scan.start = tuple(lo)
+        else:
+            scan = abtem.GridScan(start=tuple(lo), end=tuple(hi), sampling=step, endpoint=ep)
+            scan.gpts = (3, 2)
+    return scan, {"base": "grid", "start": lo, "end": hi, "endpoint": (ep, ep), "ndim": 2}
+
+
 def line_or_grid(case, spec, extent):
     """Scan object and the positions (in order, shape (..., 2)) an independent model says it visits."""
     import abtem
@@ -481,7 +561,7 @@ class Pipeline:
             self.extent = np.array(self.pot.extent)
 
     # -- the three pipelines
-    def run(self, given, lazy, max_batch="auto", scan=None):
+    def run(self, given, lazy, max_batch="auto", scan=None, compute=True):
         import abtem
         case = self.case
         fixed = dict(case["fixed"])
@@ -525,7 +605,7 @@ class Pipeline:
                     det = _detector(case, min(probe.cutoff_angles))
                     run = probe.scan if case["method"] == "scan" else probe.multislice
                     out = run(self.pot, scan=scan, detectors=det, lazy=lazy, max_batch=max_batch)
-            if hasattr(out, "compute") and getattr(out, "is_lazy", False):
+            if compute and hasattr(out, "compute") and getattr(out, "is_lazy", False):
                 out = out.compute(scheduler="synchronous" if max_batch == 1 else "threads")
         return out
 
@@ -708,21 +788,41 @@ def _check(ctx, case, abtem, transfer_mod):
     rtol, atol_rel = (2e-5, 4e-6) if f32 else (1e-9, 1e-10)
 
     # ---- scan of the ensemble run and the positions an independent model expects
-    scan, pos_model, pos_shape = None, None, ()
+    scan, pos_model, pos_shape, sinfo = None, None, (), None
+
+    def new_scan():
+        """(scan, model positions or None, shape or None, info) - a fresh object on every call."""
+        kind = case["scan_kind"]
+        if kind == "custom":
+            pm = pos_spec.values * pipe.extent
+            return _scan_arg(case, pos_spec.values, pipe.extent, scalar=False), pm, (pos_spec.n,), \
+                {"base": "custom", "start": pm[0], "ndim": 1}
+        if kind in ("line", "grid"):
+            sc, pm, shp = line_or_grid(case, pos_spec, pipe.extent)
+            first = pm.reshape(-1, 2)[0]
+            return sc, pm, shp, {"base": kind, "start": first, "ndim": len(shp),
+                                 "direction": None if kind == "grid" else (pm[-1] - pm[0]) / np.linalg.norm(pm[-1] - pm[0])}
+        sa = max([float(np.max(s_.values)) for s_ in par_specs if s_.name == "semiangle_cutoff"] +
+                 [float(case["fixed"].get("semiangle_cutoff", 0.0))])
+        sc, info = matched_scan(case, pos_spec, pipe.extent, sa)
+        if info["base"] == "line":
+            info["direction"] = (info["end"] - info["start"]) / np.linalg.norm(info["end"] - info["start"])
+        return sc, None, None, info
+
     if case["pipeline"] == "probe":
         if pos_spec is not None:
-            if case["scan_kind"] == "custom":
-                scan = _scan_arg(case, pos_spec.values, pipe.extent, scalar=False)
-                pos_model, pos_shape = pos_spec.values * pipe.extent, (pos_spec.n,)
-            else:
-                scan, pos_model, pos_shape = line_or_grid(case, pos_spec, pipe.extent)
+            scan, pos_model, pos_shape, sinfo = new_scan()
+            ctx.note("scan:" + case["scan_kind"])
         elif case["scan_kind"] == "point":
             scan = (0.31 * pipe.extent[0], 0.47 * pipe.extent[1])
-    npos = int(np.prod(pos_shape)) if pos_shape else 1
+    pos_ndim = sinfo["ndim"] if sinfo else 0
 
     given = {s.name: s.obj for s in par_specs}
     # ---- every ensemble object of the pipeline, cut into (unequal) blocks directly
-    for what, obj in pipe.ensembles(given, scan):
+    part_scan = scan
+    if sinfo is not None and pos_model is None:
+        part_scan = None            # partitioned below, once the probe has been matched to it
+    for what, obj in pipe.ensembles(given, part_scan):
         check_partitions(ctx, what, obj)
 
     # ---- run the ensemble through the code under test, counting kernel evaluations inside it
@@ -756,7 +856,7 @@ def _check(ctx, case, abtem, transfer_mod):
         return memo[key]
 
     first = {s.name: s.scalar_from_axis(s.axis_values[0]) for s in par_specs}
-    ref0 = scalar(first, None if pos_spec is None else pos_model.reshape(-1, 2)[0])
+    ref0 = scalar(first, None if pos_spec is None else sinfo["start"])
     is_waves = isinstance(got, abtem.Waves)
     if not ctx.expect(type(got) is type(ref0) or (pos_spec is not None and not is_waves), "member:values", what="type",
                       got=type(got).__name__, want=type(ref0).__name__):
@@ -767,7 +867,7 @@ def _check(ctx, case, abtem, transfer_mod):
     axes = list(got.axes_metadata)[:max(lead, 0)]
     mean_specs = [s for s in par_specs if s.mean and not is_waves]
     keep_specs = [s for s in par_specs if not (s.mean and not is_waves)]
-    want_lead = len(keep_specs) + len(pos_shape)
+    want_lead = len(keep_specs) + pos_ndim
     if not ctx.expect(lead == want_lead and garr.shape[lead:] == r0.shape, "axis-length", what="number of ensemble axes",
                       shape=list(garr.shape), member_shape=list(r0.shape), expected_axes=want_lead,
                       axes=[(type(a).__name__, getattr(a, "label", None)) for a in got.axes_metadata]):
@@ -804,12 +904,26 @@ def _check(ctx, case, abtem, transfer_mod):
         if not ok:
             return
     pos_axes = [i for i in range(lead) if i not in taken]
+    pos_meta = None
     if pos_spec is not None:
-        ok = ctx.expect(tuple(garr.shape[i] for i in pos_axes) == tuple(pos_shape) and pos_axes == list(range(pos_axes[0], pos_axes[0] + len(pos_axes))),
-                        "position-axis", shape=list(garr.shape), pos_axes=pos_axes, want=list(pos_shape))
+        got_shape = tuple(garr.shape[i] for i in pos_axes)
+        ok = ctx.expect((pos_shape is None or got_shape == tuple(pos_shape)) and
+                        pos_axes == list(range(pos_axes[0], pos_axes[0] + len(pos_axes))),
+                        "position-axis", shape=list(garr.shape), pos_axes=pos_axes, want=None if pos_shape is None else list(pos_shape))
         if not ok:
             return
-        _check_position_metadata(ctx, case, [axes[i] for i in pos_axes], pos_model, pos_shape)
+        pos_shape = got_shape
+        # the positions the returned metadata names (members are placed by these)
+        pos_meta = positions_from_metadata(ctx, sinfo, [axes[i] for i in pos_axes], pos_shape)
+        if pos_meta is None:
+            return
+        if pos_model is not None:
+            ctx.close(pos_meta, np.asarray(pos_model, dtype=float).reshape(pos_meta.shape), "position-axis", rtol=0, atol=2e-5,
+                      what="positions named by the metadata vs position model")
+        else:
+            check_matched_positions(ctx, case, sinfo, scan, pos_meta, pos_shape)
+            if getattr(scan, "sampling", None) is not None:
+                check_partitions(ctx, type(scan).__name__ + ":matched", scan)
 
     # ---- compare every member with the scalar run the metadata names for it
     amp_weighted = case["pipeline"] == "ctf" or (case["pipeline"] == "plane" and case.get("ctf_names"))
@@ -833,7 +947,7 @@ def _check(ctx, case, abtem, transfer_mod):
             pj = idx[len(keep_specs):]
             for a, j in zip(pos_axes, pj):
                 full[a] = j
-            pos = pos_model[pj]
+            pos = pos_meta[pj]
         if mean_specs:
             acc = np.zeros(r0.shape, dtype=np.float64)
             for midx in itertools.product(*mean_ranges):
@@ -865,32 +979,109 @@ def _check(ctx, case, abtem, transfer_mod):
     if not nt:
         ctx.note("members-indistinguishable")
 
+    # ---- two lazy ensembles of the same kind and shapes evaluated in ONE dask.compute call
+    if case.get("joint"):
+        import dask
+        given2 = {s.name: twin_distribution(s) for s in par_specs}
+        scan2 = scan
+        reversible = True
+        if pos_spec is not None:
+            if case["scan_kind"] == "custom":
+                scan2 = _scan_arg(case, pos_spec.values[::-1], pipe.extent, scalar=False)
+            else:
+                scan2, reversible = new_scan()[0], False
+        a = pipe.run(given, True, case["max_batch"], scan=new_scan()[0] if pos_spec is not None else scan, compute=False)
+        b = pipe.run(given2, True, case["max_batch"], scan=scan2, compute=False)
+        if ctx.expect(hasattr(a.array, "dask") and hasattr(b.array, "dask"), "joint-compute:values", what="lazy outputs"):
+            with warnings.catch_warnings():
+                warnings.simplefilter("ignore")
+                ja, jb, jd = dask.compute(a.array, b.array, b.array - a.array,
+                                          scheduler="synchronous" if case["max_batch"] == 1 else "threads")
+                # abTEM's compute() works in place: the separate evaluations come after the joint one
+                sa_, sb_ = G.to_numpy(a.compute(scheduler="synchronous")), G.to_numpy(b.compute(scheduler="synchronous"))
+            tol = dict(rtol=rtol, atol=atol_rel * scale)
+            ctx.close(ja, sa_, "joint-compute:values", which="primary", **tol)
+            ctx.close(jb, sb_, "joint-compute:values", which="twin", **tol)
+            ctx.close(jd, sb_ - sa_, "joint-compute:values", which="lazy difference", rtol=rtol, atol=2 * atol_rel * scale)
+            # anchors: the primary is the result already taken apart above; the twin holds the same members in reverse order
+            ctx.close(ja, garr, "joint-compute:values", which="primary vs decomposed result", **tol)
+            if reversible:
+                flip = tuple(where[s.name] for s in keep_specs) + tuple(pos_axes if pos_spec is not None else ())
+                ctx.close(np.flip(jb, axis=flip) if flip else jb, garr, "joint-compute:values", which="twin (reversed values)", **tol)
+            ctx.monitor("joint-computes")
 
-def _check_position_metadata(ctx, case, pax, pos_model, pos_shape):
-    """The scan axes must describe the visited positions in order."""
-    kind = case["scan_kind"]
-    if kind == "custom":
+
+def twin_distribution(spec):
+    """Same kind, length and class of distribution with the values (and weights) in reverse order."""
+    import abtem
+    p = spec.p
+    vals = np.array(spec.values, dtype=float)[::-1].copy()
+    w = np.array(spec.weights, dtype=float)[::-1].copy()
+    if spec.name == "tilt" or p["form"] in ("from_values", "uniform", "gaussian") or p["mean"]:
+        return abtem.distributions.from_values(vals, weights=None if np.allclose(w, 1.0) and p["form"] != "gaussian" else w,
+                                               ensemble_mean=spec.mean)
+    return vals.tolist() if p["form"] == "list" else vals
+
+
+def _linear_coords(ax, n):
+    if not hasattr(ax, "sampling"):
+        return None
+    return float(getattr(ax, "offset", 0.0)) + float(ax.sampling) * np.arange(n)
+
+
+def positions_from_metadata(ctx, info, pax, shape):
+    """Positions (shape + (2,)) that the returned scan axes name.  Axes that became image axes (detectors integrating the
+    pattern) and the distance axis of a line scan are relative to the start point given by the caller."""
+    base = info["base"]
+    if base == "custom":
         v = getattr(pax[0], "values", None)
-        ok = v is not None and np.asarray(v, dtype=float).shape == pos_model.shape and \
-            np.allclose(np.asarray(v, dtype=float), pos_model, rtol=1e-6, atol=1e-6)
-        ctx.expect(ok, "position-axis", what="PositionsAxis values", got=None if v is None else np.asarray(v).tolist(),
-                   want=pos_model.tolist())
-        return
-    if kind == "line":
-        ax = pax[0]
-        d = np.linalg.norm(pos_model - pos_model[0], axis=-1)
-        if hasattr(ax, "sampling"):
-            got = float(getattr(ax, "offset", 0.0)) + float(ax.sampling) * np.arange(pos_shape[0])
-            ctx.expect(np.allclose(got - got[0], d, rtol=1e-5, atol=1e-5), "position-axis", what="line scan axis", got=got.tolist(),
-                       want=d.tolist())
-        return
-    for k, ax in enumerate(pax):
-        want = pos_model[:, 0, 0] if k == 0 else pos_model[0, :, 1]
-        if hasattr(ax, "sampling"):
-            got = float(getattr(ax, "offset", 0.0)) + float(ax.sampling) * np.arange(pos_shape[k])
-            if type(ax).__name__ != "ScanAxis":
-                # detectors that turn the scan into image axes describe relative coordinates only
-                got, want = got - got[0], want - want[0]
-                ctx.note("scan-axes-became-image-axes")
-            ctx.expect(np.allclose(got, want, rtol=1e-5, atol=1e-5), "position-axis", what="grid scan axis %d" % k,
-                       got=got.tolist(), want=want.tolist())
+        if not ctx.expect(v is not None and np.asarray(v, dtype=float).shape == (shape[0], 2), "position-axis",
+                          what="PositionsAxis values", got=None if v is None else np.asarray(v).tolist()):
+            return None
+        return np.asarray(v, dtype=float)
+    coords = [_linear_coords(ax, n) for ax, n in zip(pax, shape)]
+    if not ctx.expect(all(c is not None for c in coords), "position-axis", what="scan axes are not linear axes",
+                      axes=[type(a).__name__ for a in pax]):
+        return None
+    if base == "line":
+        r = coords[0]
+        if type(pax[0]).__name__ == "ScanAxis":
+            ctx.expect(abs(r[0]) < 1e-6, "position-axis", what="line scan axis does not start at 0", got=float(r[0]))
+        return info["start"][None] + (r - r[0])[:, None] * info["direction"][None]
+    xy = []
+    for k, (ax, c) in enumerate(zip(pax, coords)):
+        if type(ax).__name__ == "ScanAxis":
+            xy.append(c)                                            # absolute coordinates
+        else:
+            ctx.note("scan-axes-became-image-axes")
+            xy.append(info["start"][k] + (c - c[0]))
+    return np.stack(np.meshgrid(xy[0], xy[1], indexing="ij"), axis=-1)
+
+
+def check_matched_positions(ctx, case, info, scan, pos_meta, shape):
+    """Scans whose number of positions abTEM chose: what the inputs promise about the positions the metadata names."""
+    flat = pos_meta.reshape(-1, 2)
+    ctx.close(flat[0], info["start"], "position-axis", rtol=0, atol=2e-5, what="first position is the start point")
+    if info["base"] == "line":
+        n = shape[0]
+        last = flat[-1]
+        if n > 1:
+            step = flat[1] - flat[0]
+            want_last = info["end"] if info["endpoint"][0] else info["end"] - step
+            ctx.close(last, want_last, "position-axis", rtol=0, atol=5e-5, what="last position vs end point", n=n,
+                      endpoint=info["endpoint"][0])
+    else:
+        for k in range(2):
+            c = pos_meta[:, 0, 0] if k == 0 else pos_meta[0, :, 1]
+            if len(c) > 1:
+                want_last = info["end"][k] if info["endpoint"][k] else info["end"][k] - (c[1] - c[0])
+                ctx.close(c[-1], want_last, "position-axis", rtol=0, atol=5e-5, what="last coordinate vs end", axis=k, n=len(c))
+    # the scan object the caller passed in has been matched in place: its own positions are the ones named
+    try:
+        own = np.asarray(scan.get_positions(), dtype=float).reshape(pos_meta.shape)
+    except Exception:
+        own = None
+        ctx.note("scan-object-not-matched-in-place")
+    if own is not None:
+        ctx.close(pos_meta, own, "position-axis", rtol=0, atol=5e-5, what="metadata positions vs scan.get_positions()")
+    ctx.monitor("matched-scans")
